@@ -15,7 +15,7 @@ EXPLANATION = (
     'return the failure of the send; one-shot closures may discard it but never unwrap it. R02.f Core::resolve reports a rejected resolution as '
     'an Err value. R02.g a value delivered into a legacy future reaches the asking task (pending poll keeps this poll\'s waker under the slot\'s '
     'lock; resolve delivers, takes and wakes under it). R02.h a serialised resolution addressed to no outstanding request (a second response to a '
-    'one-shot) is an Err, never a panic. Cross-delivery freedom under every '
+    'one-shot) is an Err, never a panic. R02.i the arity state of a resolver is written only inside its own resolve(). Cross-delivery freedom under every '
     'interleaving is argued from ownership, not decided.')
 
 CLOSURE_CALLS = ['core::ops::function::Fn::call', 'core::ops::function::FnMut::call_mut', 'core::ops::function::FnOnce::call_once']
